@@ -712,6 +712,95 @@ func runC19(c *Ctx) {
 							deferred = nsites > 0 && all
 						}
 					}
+					// … or the closure travels in a field of a struct the registering function hands back, and every caller
+					// defers that field's call: sub := r.subscribe(); defer sub.cancel()
+					if !deferred && b.Lit != nil {
+						field := ""
+						var lit *ast.CompositeLit
+						ast.Inspect(b.Decl.Body, func(m ast.Node) bool {
+							if cl, ok := m.(*ast.CompositeLit); ok {
+								for _, el := range cl.Elts {
+									if kv, ok := el.(*ast.KeyValueExpr); ok && ast.Unparen(kv.Value) == ast.Expr(b.Lit) {
+										if k, ok := kv.Key.(*ast.Ident); ok {
+											field, lit = k.Name, cl
+										}
+									}
+								}
+							}
+							return true
+						})
+						ri := -1
+						if lit != nil {
+							// returned as it is, or through a local that holds it
+							var holder types.Object
+							ast.Inspect(b.Decl.Body, func(m ast.Node) bool {
+								if as, ok := m.(*ast.AssignStmt); ok && len(as.Lhs) == 1 && len(as.Rhs) == 1 {
+									r := ast.Unparen(as.Rhs[0])
+									if ue, ok := r.(*ast.UnaryExpr); ok && ue.Op == token.AND {
+										r = ast.Unparen(ue.X)
+									}
+									if r == ast.Expr(lit) {
+										if id, ok := as.Lhs[0].(*ast.Ident); ok {
+											holder = info.ObjectOf(id)
+										}
+									}
+								}
+								return true
+							})
+							ast.Inspect(b.Decl.Body, func(m ast.Node) bool {
+								if _, isLit := m.(*ast.FuncLit); isLit {
+									return false
+								}
+								if ret, ok := m.(*ast.ReturnStmt); ok {
+									for i, r := range ret.Results {
+										r = ast.Unparen(r)
+										if ue, ok := r.(*ast.UnaryExpr); ok && ue.Op == token.AND {
+											r = ast.Unparen(ue.X)
+										}
+										if r == ast.Expr(lit) {
+											ri = i
+										}
+										if id, ok := r.(*ast.Ident); ok && holder != nil && info.ObjectOf(id) == holder {
+											ri = i
+										}
+									}
+								}
+								return true
+							})
+						}
+						if ri >= 0 {
+							nsites, all := 0, true
+							for _, ob := range bodies {
+								directNodes(ob.Body, func(m ast.Node) bool {
+									as, ok := m.(*ast.AssignStmt)
+									if !ok || len(as.Rhs) != 1 || ri >= len(as.Lhs) {
+										return true
+									}
+									call, ok := ast.Unparen(as.Rhs[0]).(*ast.CallExpr)
+									if !ok || types.Object(calleeOf(info, call)) != info.Defs[b.Decl.Name] {
+										return true
+									}
+									nsites++
+									vid, ok := as.Lhs[ri].(*ast.Ident)
+									isDef := false
+									if ok {
+										for _, dc := range deferredCalls(ob.Body) {
+											if se, isSel := ast.Unparen(dc.Fun).(*ast.SelectorExpr); isSel && se.Sel.Name == field && len(dc.Args) == 0 {
+												if xid, isID := ast.Unparen(se.X).(*ast.Ident); isID && info.ObjectOf(xid) == info.ObjectOf(vid) {
+													isDef = true
+												}
+											}
+										}
+									}
+									if !isDef {
+										all = false
+									}
+									return true
+								})
+							}
+							deferred = nsites > 0 && all
+						}
+					}
 					c.check(deferred, "C19.R3", funcKey(p, b.Decl)+"|unregister-deferred", c.pos(n.Pos()), "removal runs in a defer, on every exit of the handler",
 						"the client is not removed in a defer: an early return (write error) leaves a dead client in the registry, and every later broadcast leaks a goroutine on it")
 				}
